@@ -243,3 +243,101 @@ func VH_C18_MapRejected() {
 	vhCheckMap(m, addr, model, "after rejected request")
 	vhReach("rejected-done")
 }
+
+// Callback failures during lookups in maps WITH collision groups (inline,
+// external, nested, or last-level list): the k-th comparator call, the hash
+// input provider, or the ledger read of an external group fails. The lookup
+// must report an external error (never key-not-found, never a wrong "absent").
+//
+//vh:prop C18 C12
+//vh:param singles 1 2
+//vh:param gsize 3 3
+func VH_C18_GroupLookupFaults() {
+	vhSetThreshold(256)
+	storage := &vLogStorage{BasicSlabStorage: vhNewBasicStorage()}
+	addr := vhAddr(1)
+	b := &vDigesterBuilder{levels: 4}
+	if vhChoose("listmode", 2) == 1 {
+		b.levels = 1
+	}
+	nsingle := vhChoose("nsingle", vhParam("singles", 1)+1)
+	gsize := 2 + vhChoose("gsize", vhParam("gsize", 3)-1)
+	gpos := vhChoose("gpos", nsingle+1)
+	external := vhChoose("external", 2) == 1
+	deep := b.levels > 1 && vhChoose("deep", 2) == 1
+	m, model, gidx := vhBuildGroupMapDeep(storage, addr, b, nsingle, gsize, gpos, external, deep)
+	storage.writes = 0
+	gd0 := model[gidx[0]].key.d[0]
+	// the key looked up: a group member, or an absent key colliding with the group
+	var key vKey
+	present := vhChoose("present", 2) == 1
+	wantVal := uint64(0)
+	if present {
+		i := gidx[vhChoose("member", len(gidx))]
+		key = model[i].key
+		wantVal = model[i].val
+	} else {
+		key = vhNewKey(9999)
+		key.d[0] = gd0
+	}
+	calls := 0
+	failAt := 0
+	cmp := func(s SlabStorage, v Value, st Storable) (bool, error) {
+		calls++
+		if calls == failAt {
+			return false, fmt.Errorf("injected comparator failure")
+		}
+		return vhCompare(s, v, st)
+	}
+	hip := vhHip
+	injected := false
+	switch vhChoose("component", 3) {
+	case 0:
+		failAt = 1 + vhChoose("failat", gsize)
+	case 1:
+		hip = func(Value, []byte) ([]byte, error) { return nil, fmt.Errorf("injected hip failure") }
+		injected = true
+	case 2:
+		storage.retrCalls = 0
+		storage.retrFailAt = 1
+	}
+	var err error
+	var v Value
+	has := false
+	useHas := vhChoose("api", 2) == 1
+	if useHas {
+		has, err = m.Has(cmp, hip, key)
+	} else {
+		v, err = m.Get(cmp, hip, key)
+	}
+	if failAt != 0 && calls >= failAt {
+		injected = true
+	}
+	if storage.retrFailAt != 0 && storage.retrCalls >= 1 {
+		injected = true
+	}
+	storage.retrFailAt = 0
+	if injected {
+		vhAssert(err != nil, "callback failure surfaces")
+		vhAssert(vhIsExternal(err), "callback failure is an external error")
+		vhAssert(!vhIsKeyNotFound(err), "callback failure is not reported as key-not-found")
+	} else if present {
+		vhAssert(err == nil, "lookup of a present key succeeds")
+		if err == nil {
+			if useHas {
+				vhAssert(has, "present key: has")
+			} else {
+				vhAssert(vhTagOf(v) == wantVal, "present key: value")
+			}
+		}
+	} else {
+		if useHas {
+			vhAssert(err == nil && !has, "absent key: has reports false")
+		} else {
+			vhAssert(vhIsKeyNotFound(err), "absent key: key-not-found")
+		}
+	}
+	vhAssert(storage.writes == 0, "lookup stores/removes nothing")
+	vhCheckMap(m, addr, model, "after faulty lookup")
+	vhReach("group-faults-done")
+}
